@@ -411,16 +411,20 @@ PROPS = {
         model_limits='not in the model: fee distribution inside GetEndBlockUpdate, UpdateWithdrawReward and ExecuteAllegationTracker (same hook, no influence on the returned list), how stake / unstake / slashing change the records between blocks (C11: the multi-block theorems quantify over arbitrary record sequences that satisfy the handler facts (H)), how validators get flagged for missed votes (C19: the malicious set is an input); governance changes of the staking options are exercised through the fork block (applyUpdate) and one scripted CONFIG_UPDATE proposal lifecycle in the valid-range option family, not through generated proposals'),
     'C16': dict(
         lean_modules=['OLP.Props.C16'], namespaces=['OLP.Props.C16'],
-        required_theorems=['step_refines', 'run_refines', 'impl_refines_ref_partial', 'impl_refines_ref_decidable_partial', 'impl_refines_ref_from_empty_partial', 'sane_storeOK',
-                           'client_refines', 'any_client_same_result_partial', 'sim_init', 'ref_revert_restores', 'ref_finalise_promotes',
-                           'selfdestruct_keeps_balance', 'recreated_account_keeps_storage', 'createAccount_keeps_storage',
-                           'stale_dirty_index_panics', 'reverted_transfer_deletes_empty_account', 'tombstone_code_is_lost'],
+        required_theorems=['step_refines', 'panics_are_shared', 'run_refines', 'impl_refines_ref_partial', 'impl_refines_ref_decidable_partial',
+                           'impl_refines_ref_from_empty_partial', 'sane_storeOK', 'client_refines', 'any_client_same_result_partial', 'sim_init',
+                           'ref_revert_restores', 'ref_finalise_promotes',
+                           'recreated_account_keeps_storage', 'createAccount_keeps_storage', 'marker_code_fails_finalise',
+                           'regress_selfdestruct_balance', 'regress_paid_after_selfdestruct', 'regress_dirty_index',
+                           'regress_reverted_transfer_keeps_empty_account'],
         run=run_c16, replay=replay_olh('evm'), level='proof',
         trusted_extra=['go-ethereum v1.10.8 core/state.StateDB over rawdb.NewMemoryDatabase() is the reference semantics (oracle of the monitor); the Lean `Ref` is compared with it call by call on every run',
                        'go-ethereum\'s EVM interpreter is a deterministic client of the vm.StateDB interface (the step from "same interface behaviour" to "same result of every bytecode program", theorem any_client_same_result_partial)'],
         assumptions=['Keccak-256 is injective on the codes and storage keys that occur (the model identifies a code hash with the code and keccak(addr||slot) with (addr, slot)); amounts, nonces and the refund counter are unbounded naturals (uint64 / 256-bit wrap-around is out of scope)',
                      'SubBalance is only called with amount <= balance (every EVM path checks CanTransfer / buyGas first): beyond it the adapter panics ("Failed to minus balance") while go-ethereum lets the balance go negative; counted as precondition-subbalance-underflow, both Lean models refuse',
+                     'a contract code equal to the store\'s deletion marker (the 3 bytes e2 9b bc) is outside the property\'s input class: the store refuses the record and Finalise fails the transaction (b55dd24, 078c4d3), which the reference semantics has no counterpart for; counted as excluded-code-equals-deletion-marker, excluded by the guard of the theorems (theorem marker_code_fails_finalise shows the behaviour)',
+                     'starting records are sane (Store.sane, decidable, checked by the driver): no empty account is stored, no storage record of an absent account, the code of every account present',
                      'oracle normalisation, interface-op mode only: go-ethereum journals a resetObjectChange (dirtied() = nil) when an object is created over a live or previously deleted one, so a bare CreateAccount / SubBalance(a,0) leaves the fresh object out of journal.dirties; the harness issues SetNonce(a, current nonce) on the oracle behind every creating call (the EVM itself always follows CreateAccount with SetNonce(1)); not applied when the calls come from the EVM',
-                     'transition code cross-check (adapter\'s vm.ApplyMessage vs go-ethereum core.ApplyMessage over go-ethereum state) is modulo the chain\'s own parameters: refund quotient 3 instead of 5, no coinbase payment, no base fee, nonce-too-high admitted (S12, another property)'],
-        model_limits='impl_refines_ref / any_client_same_result are proved under Impl.safeRun / Client.safe, a decidable predicate on the adapter state evaluated by the driver on every correspondence line: it excludes the five confirmed mechanisms (S8 balance and storage residue, stale dirties index, reverted balance change on an empty stored account via Finalise(false), TOMBSTONE code), the RIPEMD touch exception, Prepare/Reset inside a transaction, and two well-formedness conditions that held on every state ever produced but are checked rather than proved invariant (every dirty slot has its origin cached; no access-list slot without its address). The access list is modelled as flat lists (vm/access_list.go is a verbatim copy of go-ethereum\'s), preimages and ForEachStorage are not modelled, gas metering constants and opcodes are go-ethereum\'s on both sides.'),
+                     'transition code cross-check (adapter\'s vm.ApplyMessage vs go-ethereum core.ApplyMessage over go-ethereum state) is modulo the chain\'s own parameters: refund quotient 3 instead of 5, no coinbase payment, zero base fee, nonce-too-high admitted (S12, another property)'],
+        model_limits='impl_refines_ref / any_client_same_result are proved under Impl.safeRun / Client.safe, a decidable predicate on the adapter state evaluated by the driver on every correspondence line. After the repairs in /repo it excludes only: the one mechanism left (KF-C16-2: Finalise deleting an account with non-zero storage records, CreateAccount over a live account that has some), the deletion-marker code (documented input exclusion), Finalise(false), the RIPEMD sticky touch, and Prepare/Reset inside a transaction. Proved as invariants of every reachable state (no longer guards): no journal operation / undo / dirty-counter update can fail, so the adapter panics exactly where the reference does (JOK); Finalise writes out every account with a live journal entry (JCnt); every dirty slot has its original value cached when commitState runs, followed through createObject/resetObject entries (OOK); the access list is abstracted to counts so a slot listed without its address could not make the two differ. Remaining hypothesis on the starting records: Store.sane (no empty account stored, since empty stored accounts are only covered by the correspondence run). dirties + addressToJournalIndex are modelled as one association list (the code keeps them consistent since f45414e; a regression would show as a panic in the correspondence run). The access list is modelled as flat lists (vm/access_list.go is a verbatim copy of go-ethereum\'s), preimages and ForEachStorage are not modelled, gas metering constants and opcodes are go-ethereum\'s on both sides.'),
 }
